@@ -91,3 +91,66 @@ Print Assumptions C16_connections_add.
 Theorem C16_edge_lists_add : forall a b term i, edge_sum (a ++ b) term i = edge_sum a term i + edge_sum b term i.
 Proof. exact edge_lists_add. Qed.
 Print Assumptions C16_edge_lists_add.
+
+(* ---------------------------------------------------------------------------------------------------------------
+   One Connectivity inside a network of ANY number of populations of ANY sizes, at ANY state/history (delays
+   included): under the per-connection guard the vector that the generated in-edge equation computes is, unit by
+   unit, the sum over the expanded scalar edge list. *)
+Theorem C16_partial : forall N hist c V i,
+  wf_conn N c = true -> conn_guard N c = true -> shapes_ok N hist c V -> (i < size_of N (ctgt c))%nat ->
+  nth i (pop_contrib N hist c V) 0 = edge_sum (expand_conn 0 N c) (exp_term N hist c V) i.
+Proof. exact pop_contrib_is_edge_sum. Qed.
+Print Assumptions C16_partial.
+
+(* The full-strength statement (every well-formed population circuit runs like its explicit network) is FALSE of the
+   faithful model; it stays visible here and is refuted by computed witnesses that also fail on the real code
+   (corpus/C16). *)
+Definition C16_full_statement : Prop := forall N units dt rows, wf_net N = true -> wf_units N units = true ->
+  pop_run unit_poly N units dt rows = Some (exp_run 0 unit_poly N units dt rows).
+
+Theorem C16_refuted_scalar_coupling :
+  wf_net N_scalar_coupling = true /\ g_scalar_plain N_scalar_coupling = false /\
+  pop_run unit_poly N_scalar_coupling units22 (mkq 1 4) 2 <> Some (exp_run 0 unit_poly N_scalar_coupling units22 (mkq 1 4) 2).
+Proof. exact refuted_scalar_coupling. Qed.
+Print Assumptions C16_refuted_scalar_coupling.
+
+Theorem C16_refuted_near_one :
+  wf_net N_near_one = true /\ g_not_near_one N_near_one = false /\
+  pop_run unit_poly N_near_one units22 (mkq 1 4) 2 <> Some (exp_run 0 unit_poly N_near_one units22 (mkq 1 4) 2).
+Proof. exact refuted_near_one. Qed.
+Print Assumptions C16_refuted_near_one.
+
+Theorem C16_refuted_post_name :
+  wf_net N_post_name = true /\ g_post_name N_post_name = false /\
+  pop_run unit_poly N_post_name units22 (mkq 1 4) 2 <> Some (exp_run 0 unit_poly N_post_name units22 (mkq 1 4) 2).
+Proof. exact refuted_post_name. Qed.
+Print Assumptions C16_refuted_post_name.
+
+(* loud classes: two connections from one population onto one target variable, a coupling template on a one-row /
+   one-column matrix, a source variable that is also the post-synaptic variable of a several-input target, a delayed
+   1 x 1 matrix — the population circuit raises *)
+Theorem C16_refuted_loud :
+  (wf_net N_dup_sources = true /\ g_distinct_sources N_dup_sources = false /\ pop_run unit_poly N_dup_sources units22 (mkq 1 4) 2 = None) /\
+  (wf_net N_coupling_shape = true /\ g_coupling_shape N_coupling_shape = false /\
+   pop_run unit_poly N_coupling_shape [st1 [mkq 1 2; mkq 1 1] [0; 0]; st1 (mkq 1 1 :: nil) (0 :: nil)] (mkq 1 4) 2 = None) /\
+  (wf_net N_alias = true /\ g_no_alias N_alias = false /\ pop_run unit_poly N_alias units22 (mkq 1 4) 2 = None) /\
+  (wf_net N_delay_1x1 = true /\ g_delay_shape N_delay_1x1 = false /\
+   pop_run unit_poly N_delay_1x1 [st1 (mkq 1 2 :: nil) (0 :: nil); st1 (mkq 1 1 :: nil) (0 :: nil)] (mkq 1 4) 2 = None).
+Proof. exact refuted_loud. Qed.
+Print Assumptions C16_refuted_loud.
+
+Theorem C16_full_refuted : ~ C16_full_statement.
+Proof.
+  intros H. destruct refuted_scalar_coupling as (Hwf & _ & Hne). apply Hne. apply H; [exact Hwf|vm_compute; reflexivity].
+Qed.
+Print Assumptions C16_full_refuted.
+
+(* non-vacuity: a guard-satisfying network (3 -> 2 non-square signed matrix, a scalar weight onto the same target
+   variable, a coupled 3 x 2 matrix, per-unit parameters): well-formed, inside every guard, Impl = Spec on a
+   3-row Euler trajectory, and the state moves *)
+Example C16_nonvacuous :
+  wf_net N_example = true /\ wf_units N_example units_example = true /\ guards 0 N_example = true /\
+  pop_run unit_poly N_example units_example (mkq 1 4) 3 = Some (exp_run 0 unit_poly N_example units_example (mkq 1 4) 3) /\
+  list_eqb pstate_eqb (nth 1 (exp_run 0 unit_poly N_example units_example (mkq 1 4) 3) []) units_example = false.
+Proof. exact nonvacuous. Qed.
+Print Assumptions C16_nonvacuous.
